@@ -38,6 +38,15 @@ AddAct(D, ovf, sign) ==
   /\ LET o == AddYmI(cur.v, sign * D.y, sign * D.mo)
      IN /\ last' = [op |-> IF sign = 1 THEN "add" ELSE "subtract", recv |-> cur.v, dur |-> D, ovf |-> ovf, out |-> o]
         /\ cur' = Stay("ym", o)
+\* durations with weeks / days / hours (sign-uniform): the days and the whole days in the hours can carry the date into another month
+FullDurs == {[y |-> 0, mo |-> 0, w |-> 0, d |-> 31, h |-> 0], [y |-> 0, mo |-> 0, w |-> 0, d |-> 0, h |-> 744], [y |-> 0, mo |-> 0, w |-> 0, d |-> 0, h |-> 24], [y |-> 0, mo |-> 0, w |-> 0, d |-> 0, h |-> 23],
+             [y |-> 0, mo |-> 1, w |-> 0, d |-> 0, h |-> 48], [y |-> 0, mo |-> 0, w |-> 0, d |-> 28, h |-> 0], [y |-> 0, mo |-> 0, w |-> 5, d |-> 0, h |-> 0], [y |-> 1, mo |-> 0, w |-> 0, d |-> 366, h |-> 12],
+             [y |-> 0, mo |-> 0, w |-> 0, d |-> 1, h |-> 0], [y |-> 0, mo |-> 0, w |-> 0, d |-> 30, h |-> 23]}
+AddFullAct(D, ovf, sign) ==
+  /\ cur # Nothing /\ cur.k = "ym"
+  /\ LET o == AddYmFull(cur.v, sign * D.y, sign * D.mo, sign * D.w, sign * D.d, sign * D.h, ovf)
+     IN /\ last' = [op |-> IF sign = 1 THEN "addFull" ELSE "subtractFull", recv |-> cur.v, dur |-> D, ovf |-> ovf, out |-> o]
+        /\ cur' = cur
 DiffAct(other, st, sign) ==
   /\ cur # Nothing /\ cur.k = "ym"
   /\ last' = [op |-> IF sign = 1 THEN "until" ELSE "since", recv |-> cur.v, other |-> other, st |-> st, out |-> YmUntil(cur.v, other, st, sign)]
@@ -49,6 +58,7 @@ Next == /\ (OneStep => last = None)
            \/ \E a \in CmpRoutes, b \in CmpRoutes : CmpAct("ym", a, b)
            \/ \E a \in MdCmpRoutes, b \in MdCmpRoutes : CmpAct("md", a, b)
            \/ \E D \in DurSet, ovf \in Ovfs, sign \in {1, -1} : AddAct(D, ovf, sign)
+           \/ \E D \in FullDurs, ovf \in Ovfs, sign \in {1, -1} : DurSet # {} /\ AddFullAct(D, ovf, sign)
            \/ \E o \in Others, st \in Settings, sign \in {1, -1} : DiffAct(o, st, sign)
 Spec == Init /\ [][Next]_vars
 
